@@ -569,6 +569,8 @@ def rule_chain(ctx):
 # the last event's new value is the current value: the mirror itself must be right
 IMPORTS = [('C15', 'C15.MIRROR')]
 
+EXPLANATION = EXPLANATION + ' C16.RM also decides that registration ids are unique over the life of the client: register A, B; remove A by id; register C; remove B by id - only C stays.'
+
 RULES = [
     ("C16.FILTER", rule_filter, "callback filter truth table (432 rows)"),
     ("C16.RM", rule_rm, "removal by every combination of criteria; onevent appends and returns the uuid"),
